@@ -38,6 +38,8 @@ CHECKS = {
          "TLC derives the faulty inputs from valid encodings of every message type with the actions of PerFault.tla; the real ngap.Decoder runs each under a 3 s watchdog with wall time and allocation measured; Totality.tla demands outcome in {value, error} within 200 ms and 64 MiB. Seeded random strings, multi-byte corruptions and splices are added on the Go side."),
  "C18": ("TLA+ trace validation with TLC (TraceConfig.tla: 24-key identity, Cli!Mode) plus TLC-as-AMF online runs for the on-the-wire part",
          "Generated assignments of the 24 documented keys go through the real YAML loader and are compared key by key in TLC; argument vectors of length 0..3 are run against the real binary and judged by Cli!Mode (banner, usage, N2 traffic); complete runs with random configurations are judged on the wire by the specification's AMF (every configured value that reaches the N2 interface, and the ConnectToAmf arguments via hook H1)."),
+ "C20": ("TLC enumerates every interleaving of the gate-point segments (Conc.tla: atomic spec vs shared / locked / local implementation models); schedules replayed into the real code through gate hooks; stress under the race detector judged by TLC (TraceConc)",
+         "Conc.tla is model-checked (the shared-state model violates ResultsSequential, the locked and local ones satisfy it); every interleaving TLC enumerates is replayed deterministically through hook H4 with each result compared to the same call executed alone (and to NasAlg); free-running stress over all codec / security families with 2, 8, 64 goroutines under -race; any race report is an event the trace spec rejects."),
 }
 NA = {}
 def main():
